@@ -287,8 +287,25 @@ pub fn run_batch(scenarios: &[Box<dyn Scenario>], seed: u64, tier: Tier, stats: 
                             let plan = match std::panic::catch_unwind(std::panic::AssertUnwindSafe(|| sc.run(seed, tier, i, &mut out))) {
                                 Ok(p) => p,
                                 Err(_) => {
-                                    eprintln!("harness error: the simulator itself panicked in run {} of scenario {} (seed {}); this is not a verdict on the code under test", i, sc.name(), seed);
-                                    std::process::exit(2);
+                                    // where did it happen? in the library under test (a call the scenario made outside
+                                    // `guard`): a totality violation of that run; in the simulator itself: harness error
+                                    match crate::monitor::take_unguarded() {
+                                        Some((raw, msg)) if crate::monitor::is_library_location(&raw) => {
+                                            let loc = crate::monitor::strip_location(&raw);
+                                            let plan = sc.plan_json(seed, tier, i);
+                                            out.viol(
+                                                "C11/unexpected-panic",
+                                                format!("unmonitored-call:{}:{}", sc.name(), loc),
+                                                format!("the library panicked at {} ({}) in a call the scenario makes outside its per-operation monitor; the rest of run {} was abandoned", loc, msg, i),
+                                                Some(plan.clone()),
+                                            );
+                                            plan
+                                        }
+                                        _ => {
+                                            eprintln!("harness error: the simulator itself panicked in run {} of scenario {} (seed {}); this is not a verdict on the code under test", i, sc.name(), seed);
+                                            std::process::exit(2);
+                                        }
+                                    }
                                 }
                             };
                             agg.digests.push(out.digest.finish());
@@ -395,9 +412,33 @@ impl Known {
 // ---------------------------------------------------------------------------------------------
 // minimiser
 
+/// `sc.replay` with the same classification of a panic outside `guard` as the batch runner: in the library → the
+/// C11/unexpected-panic finding of that plan; in the simulator → harness error (exit 2).
+pub fn replay_caught(sc: &dyn Scenario, plan: &Value, out: &mut RunOut) -> Result<(), String> {
+    match std::panic::catch_unwind(std::panic::AssertUnwindSafe(|| sc.replay(plan, out))) {
+        Ok(r) => r,
+        Err(_) => match crate::monitor::take_unguarded() {
+            Some((raw, msg)) if crate::monitor::is_library_location(&raw) => {
+                let loc = crate::monitor::strip_location(&raw);
+                out.viol(
+                    "C11/unexpected-panic",
+                    format!("unmonitored-call:{}:{}", sc.name(), loc),
+                    format!("the library panicked at {} ({}) in a call the scenario makes outside its per-operation monitor", loc, msg),
+                    Some(plan.clone()),
+                );
+                Ok(())
+            }
+            _ => {
+                eprintln!("harness error: the simulator itself panicked while replaying a plan of scenario {}; this is not a verdict on the code under test", sc.name());
+                std::process::exit(2);
+            }
+        },
+    }
+}
+
 pub fn reproduces(sc: &dyn Scenario, plan: &Value, check_id: &str, signature: Option<&str>) -> Option<Viol> {
     let mut out = RunOut::default();
-    if sc.replay(plan, &mut out).is_err() {
+    if replay_caught(sc, plan, &mut out).is_err() {
         return None;
     }
     out.viols
@@ -768,7 +809,7 @@ pub fn replay_file(path: &Path, property: &'static str, scenarios: &[Box<dyn Sce
         plan = plan["plan"].clone();
     }
     let mut out = RunOut::default();
-    if let Err(e) = sc.replay(&plan, &mut out) {
+    if let Err(e) = replay_caught(sc.as_ref(), &plan, &mut out) {
         eprintln!("harness error: {e}");
         return 2;
     }
